@@ -62,6 +62,7 @@ func c13(c *Ctx) {
 	c13Info(c)
 	c13Label(c)
 	c13PubType(c)
+	c13Relabel(c)
 }
 
 // ---------------------------------------------------------------- classify
